@@ -4,7 +4,7 @@ import sys
 
 from . import knobs, ops, pools
 from .common import canon, digest
-from .sched import LockPatcher, Scheduler, make_policy, mon
+from .sched import GLOBAL_PATCHER, Scheduler, make_policy, mon
 
 PROP = "C12"
 NAME = "schedsim"
@@ -38,14 +38,17 @@ CLUSTERS = {
     "unions": {"types": ["UM1M3", "UM3M1", "ULM1LM2", "ULM2LM1", "UDM1DM2", "UDM2DM1", "UDupAB", "UDupBA", "UIntStr", "UStrInt",
                          "OptInt", "UIntNone", "PipeIntNone"], "recipes": ["plain"], "w": 1},
 }
-CONV_CLUSTER = ["Outer", "OuterSame", "Inner", "ListInner", "OptInner", "DictInner", "InnerTags", "M1M2", "InnerSame"]
+CONV_CLUSTER = ["Outer", "OuterSame", "Inner", "ListInner", "OptInner", "DictInner", "InnerTags", "M1M2", "InnerSame", "CLink",
+                "CLink", "M1Str", "CTags", "Ann"]
+CONV_RCP = {"CLink": ["link_b_c", "link_a_c"], "M1Str": ["coerce_int_str", "coerce_int_hash"], "CTags": ["const_factory"]}
 
 
 def _types(cluster):
     return [t for t in CLUSTERS[cluster]["types"] if t in pools.TYPES]
 
 
-def gen_program(rng, cluster, n_ops, first=None):
+def gen_program(rng, cluster, n_ops, first=None, about=()):
+    """about: types the retort's recipe is about (a share of the ops is steered towards them)"""
     prog = []
     n_callables = 0
     callable_kinds = []
@@ -55,6 +58,8 @@ def gen_program(rng, cluster, n_ops, first=None):
         else:
             r = rng.random()
             t = rng.choice(_types(cluster)) if rng.random() > 0.07 else rng.choice(["Unsupported", "ListUnsupported", "CallableT"])
+            if about and rng.random() < 0.4:
+                t = rng.choice(about)
             if r < 0.15 and n_callables:
                 c = rng.randrange(n_callables)
                 k, ct = callable_kinds[c]
@@ -92,6 +97,9 @@ def gen_conv_program(rng, n_ops, first=None):
                 op = {"op": "get_converter", "h": 0, "conv": c}
             else:
                 op = {"op": "convert", "h": 0, "conv": c, "o": rng.choice(pools.CONVERTERS[c][2])}
+            if op["op"] != "call" and c in CONV_RCP and rng.random() < 0.85:
+                op["rcp"] = rng.choice(CONV_RCP[c])          # per-call recipe
+                op["rcp_shared"] = rng.random() < 0.7        # the same provider objects in every thread
         if op["op"] == "get_converter":
             n_callables += 1
             kinds.append(op["conv"])
@@ -140,7 +148,7 @@ def gen(seed, cfg=None):
     r = rng.random()
     n_threads = 2 if rng.random() < 0.7 else 3
     same_first = rng.random() < 0.6
-    if r < 0.12:
+    if r < 0.14:
         cluster = "conv"
         handle = {"base": rng.choice(["ConversionRetort", "ConversionRetort", "global_conversion"]), "recipe": "plain"}
         first = gen_conv_program(rng, 1)[0] if same_first else None
@@ -153,12 +161,13 @@ def gen(seed, cfg=None):
             handle["opts"] = {"strict_coercion": rng.random() < 0.7,
                               "debug_trail": rng.choice(["ALL", "ALL", "FIRST", "DISABLE"])}
             handle["recipe"] = rng.choice(CLUSTERS[cluster]["recipes"])
-        first = gen_program(rng, cluster, 1)[0] if same_first else None
-        programs = [gen_program(rng, cluster, rng.choice([1, 1, 2, 3, 4]), first) for _ in range(n_threads)]
+        about = [t for t in pools.RECIPE_TYPES.get(handle["recipe"], []) if t in pools.TYPES]
+        first = gen_program(rng, cluster, 1, about=about)[0] if same_first else None
+        programs = [gen_program(rng, cluster, rng.choice([1, 1, 2, 3, 4]), first, about) for _ in range(n_threads)]
     prologue = []
     if cluster != "conv" and rng.random() < 0.3:
         # the retort is already warm for something else when the threads start racing
-        prologue = [op for op in gen_program(rng, cluster, rng.choice([1, 2])) if op["op"] in ("load", "dump")]
+        prologue = [op for op in gen_program(rng, cluster, rng.choice([1, 2]), about=about) if op["op"] in ("load", "dump")]
     scn = {
         "engine": "schedsim", "seed": seed, "cluster": cluster, "handle": handle, "prologue": prologue, "threads": programs,
         "policy": gen_policy(rng, n_threads), "norm_cache": rng.choice([1, 2, 8, 128, 128]),
@@ -189,7 +198,8 @@ def _post_ops(scn):
                 k = ("get_loader" if op["op"] in ("load", "get_loader") else "get_dumper", op["t"])
                 post = {"op": k[0], "h": 0, "t": k[1]}
             elif "conv" in op:
-                post = {"op": "get_converter", "h": 0, "conv": op["conv"]}
+                post = {"op": "get_converter", "h": 0, "conv": op["conv"],
+                        **{k: op[k] for k in ("rcp", "rcp_shared") if k in op}}
             else:
                 continue
             if post not in seen:
@@ -263,7 +273,7 @@ def classify(expected, observed):
 
 def execute(scn, refs):  # noqa: C901, PLR0912, PLR0915
     """Runs in a forked child. refs=None: solo measurement (no comparisons)."""
-    patcher = LockPatcher()
+    patcher = GLOBAL_PATCHER
     patcher.install()
     knobs.set_norm_cache(scn.get("norm_cache", 128))
     main_world = ops.World([scn["handle"]])
@@ -280,7 +290,7 @@ def execute(scn, refs):  # noqa: C901, PLR0912, PLR0915
         budget = 1_500_000
     if scn["policy"]["kind"] in ("walk", "rr", "replay") and refs is not None:
         budget = 1_500_000
-    sched = Scheduler(policy, max_steps=budget, wall_timeout=90.0, keep_log=bool(scn.get("keep_log")))
+    sched = Scheduler(policy, max_steps=budget, wall_timeout=25.0, keep_log=bool(scn.get("keep_log")))
     sched.hot_files = HOT_FILES
     sched.instr = scn.get("granularity") == "instr"
     sched.instr_files = INSTR_FILES
